@@ -900,18 +900,44 @@ func barrier(dir string, lg *evLogger, fresh bool) bool {
 	return ok
 }
 
-func runSeq(c *Case, flush func(i int, op *Op)) {
-	dir, err := os.MkdirTemp("", "verif-c09-dags-")
-	if err != nil {
-		panic(err)
-	}
-	defer os.RemoveAll(dir)
+// resume describes where a sequence continues after the daemon process of a previous child died: the directory
+// is kept by the parent, the environment (latest statuses, suspend set) is handed over.
+type resume struct {
+	Dir  string          `json:"dir"`
+	From int             `json:"from"`
+	Hist map[string]Hist `json:"hist"`
+	Susp map[string]bool `json:"susp"`
+}
+
+func populate(dir string, c *Case) {
 	for _, f := range c.Files {
 		if err := os.WriteFile(filepath.Join(dir, f.Name), []byte(f.C.yaml()), 0o644); err != nil {
 			panic(err)
 		}
 	}
+}
+
+func runSeq(c *Case, rs *resume, flush func(i int, op *Op, fc *fakeClient)) {
+	var dir string
 	fc := &fakeClient{hist: map[string]Hist{}, susp: map[string]bool{}, live: c.Live}
+	from := 0
+	if rs == nil {
+		var err error
+		dir, err = os.MkdirTemp("", "verif-c09-dags-")
+		if err != nil {
+			panic(err)
+		}
+		defer os.RemoveAll(dir)
+		populate(dir, c)
+	} else {
+		dir, from = rs.Dir, rs.From
+		for k, v := range rs.Hist {
+			fc.hist[k] = v
+		}
+		for k, v := range rs.Susp {
+			fc.susp[k] = v
+		}
+	}
 	lg := &evLogger{ch: make(chan string, 256)}
 	var d *daemon
 	stop := func() {
@@ -931,7 +957,7 @@ func runSeq(c *Case, flush func(i int, op *Op)) {
 	}()
 	c.Crashed = -1
 	tmpn := 0
-	for i := range c.Ops {
+	for i := from; i < len(c.Ops); i++ {
 		op := &c.Ops[i]
 		op.Calls, op.Synced = [][2]string{}, true
 		switch op.Op {
@@ -993,54 +1019,75 @@ func runSeq(c *Case, flush func(i int, op *Op)) {
 		}
 		op.Alive = d != nil
 		if flush != nil {
-			flush(i, op)
+			flush(i, op, fc)
 		}
 	}
 }
 
-// runSeqChild runs the sequence in a child process, because a panic inside the watcher goroutine cannot be
-// recovered: the observations written before the crash are kept, the remaining ops see a dead daemon.
+// runSeqChild runs the sequence in child processes, because a panic inside the watcher goroutine cannot be
+// recovered: it ends the process, exactly as it ends the real daemon.  The observations written before the crash
+// are kept; the op during which the process died is recorded as such; the rest of the history continues in a fresh
+// child with the same directory and environment and no daemon (until the next restart op).
+type childRec struct {
+	I    int             `json:"i"`
+	O    Op              `json:"o"`
+	Hist map[string]Hist `json:"hist"`
+	Susp map[string]bool `json:"susp"`
+}
+
+type childReq struct {
+	C  Case    `json:"c"`
+	Rs *resume `json:"rs"`
+}
+
 func runSeqChild(self string, c *Case, scratch string) {
 	in := filepath.Join(scratch, fmt.Sprintf("child-%d.json", c.K))
 	out := filepath.Join(scratch, fmt.Sprintf("child-%d.out", c.K))
-	b, _ := json.Marshal(c)
-	_ = os.WriteFile(in, b, 0o644)
-	_ = os.Remove(out)
-	cmd := exec.Command(self, "child", in, out)
-	cmd.Env = os.Environ()
-	msg, err := cmd.CombinedOutput()
-	done := map[int]Op{}
-	if data, e := os.ReadFile(out); e == nil {
-		for _, line := range strings.Split(string(data), "\n") {
-			if strings.TrimSpace(line) == "" {
-				continue
-			}
-			var rec struct {
-				I  int `json:"i"`
-				Op Op  `json:"o"`
-			}
-			if json.Unmarshal([]byte(line), &rec) == nil {
-				done[rec.I] = rec.Op
-			}
-		}
+	dir, err := os.MkdirTemp("", "verif-c09-dags-")
+	if err != nil {
+		panic(err)
 	}
+	defer os.RemoveAll(dir)
+	populate(dir, c)
+	rs := &resume{Dir: dir, From: 0, Hist: map[string]Hist{}, Susp: map[string]bool{}}
 	c.Crashed = -1
-	for i := range c.Ops {
-		if o, ok := done[i]; ok {
-			c.Ops[i] = o
-			continue
-		}
-		if c.Crashed < 0 {
-			c.Crashed = i
-			if err != nil {
-				s := string(msg)
-				if k := strings.Index(s, "panic:"); k >= 0 {
-					s = s[k:]
+	for round := 0; round < 12 && rs.From < len(c.Ops); round++ {
+		b, _ := json.Marshal(childReq{C: *c, Rs: rs})
+		_ = os.WriteFile(in, b, 0o644)
+		_ = os.Remove(out)
+		cmd := exec.Command(self, "child", in, out)
+		cmd.Env = os.Environ()
+		msg, err := cmd.CombinedOutput()
+		next := rs.From
+		if data, e := os.ReadFile(out); e == nil {
+			for _, line := range strings.Split(string(data), "\n") {
+				if strings.TrimSpace(line) == "" {
+					continue
 				}
-				c.Note = short(s)
+				var rec childRec
+				if json.Unmarshal([]byte(line), &rec) == nil && rec.I == next {
+					c.Ops[rec.I] = rec.O
+					rs.Hist, rs.Susp = rec.Hist, rec.Susp
+					next++
+				}
 			}
 		}
-		c.Ops[i].Calls, c.Ops[i].Alive, c.Ops[i].Synced = [][2]string{}, false, true
+		if next < len(c.Ops) {
+			// the process died during op `next` (its file operation has been carried out)
+			if c.Crashed < 0 {
+				c.Crashed = next
+				if err != nil {
+					s := string(msg)
+					if k := strings.Index(s, "panic:"); k >= 0 {
+						s = s[k:]
+					}
+					c.Note = short(s)
+				}
+			}
+			c.Ops[next].Calls, c.Ops[next].Alive, c.Ops[next].Synced = [][2]string{}, false, true
+			next++
+		}
+		rs.From = next
 	}
 	_ = os.Remove(in)
 	_ = os.Remove(out)
@@ -1051,21 +1098,19 @@ func childMain(in, out string) {
 	if err != nil {
 		panic(err)
 	}
-	var c Case
-	if err := json.Unmarshal(data, &c); err != nil {
+	var rq childReq
+	if err := json.Unmarshal(data, &rq); err != nil {
 		panic(err)
 	}
 	f, err := os.Create(out)
 	if err != nil {
 		panic(err)
 	}
-	runSeq(&c, func(i int, op *Op) {
-		b, _ := json.Marshal(struct {
-			I int `json:"i"`
-			O *Op `json:"o"`
-		}{i, op})
+	runSeq(&rq.C, rq.Rs, func(i int, op *Op, fc *fakeClient) {
+		fc.mu.Lock()
+		b, _ := json.Marshal(childRec{I: i, O: *op, Hist: fc.hist, Susp: fc.susp})
+		fc.mu.Unlock()
 		f.Write(append(b, '\n'))
-		f.Sync()
 	})
 	f.Close()
 }
@@ -1360,7 +1405,7 @@ func runCase(self, scratch string, c *Case) {
 		if hasPanicContent(c) {
 			runSeqChild(self, c, scratch)
 		} else {
-			runSeq(c, nil)
+			runSeq(c, nil, nil)
 		}
 	}
 }
